@@ -52,6 +52,7 @@ def units(tier, seed):
         u.append(dict(layer="frame", chunk=[k, 8]))
     u.append(dict(layer="manager"))
     u.append(dict(layer="prism"))
+    u.append(dict(layer="elevated"))
     return u
 
 
@@ -97,6 +98,12 @@ def run_unit(unit, acc):
                     if idx % n != k:
                         continue
                     check_case(dict(layer="frame", sel=list(sel), vis=list(viss), s0=s0, s100=s100, minp=minp), acc)
+    elif unit["layer"] == "elevated":
+        # objects far above / below the sensor origin (overhead sign, object on a bridge): 3-D distance differs from the planar one
+        for zc in (12.0, -9.0, 25.0):
+            for s0, s100 in ((1.0, 3.0), (1.0, 1.0), (2.0, 0.5), (1.0, 6.0)):
+                for minp in (1, 40):
+                    check_case(dict(layer="elevated", zc=zc, s0=s0, s100=s100, minp=minp), acc)
     elif unit["layer"] == "prism":
         for pi in range(len(POLYS)):
             for rev in (False, True):
@@ -141,6 +148,7 @@ def _frame_cloud():
 
 # vectorised reference (own formulas, numpy only): oriented-box test with scaled footprint / unscaled height, even-odd polygon test
 _CACHE = {}
+_EPC = {}
 
 
 def _box_mask(PC, b, sc, zc):
@@ -337,6 +345,31 @@ def check_case(case, acc):
             bad("prism:partition", "inside and outside selections of a prism do not partition the cloud (%d + %d of %d)" % (len(inside), len(outside), len(PC)))
         acc.state(("prism", case["poly"], case["reversed"], tuple(case["z"]), len(inside)), nontrivial=0 < len(inside) < len(PC))
         acc.outcome(("prism", len(inside)))
+    elif lay == "elevated":
+        zc = case["zc"]
+        boxes = [(3.0, 4.0, 0.3, (2.0, 4.0, 2.0)), (-2.0, 1.5, -1.2, (1.0, 1.0, 1.0))]
+        if zc not in _EPC:   # one array object per height (the reference masks are memoised per array)
+            pts = []
+            for bx, by, byaw, (bw, bl, bh) in boxes:
+                for a in REL:
+                    for b_ in REL:
+                        dx, dy = geom.rot2(a * bl / 2 * 1.9, b_ * bw / 2 * 1.9, byaw)
+                        for dz in (-0.77, 0.0, 0.61, 1.9):
+                            pts.append((bx + dx, by + dy, zc + dz * bh / 2, 1.0))
+            _EPC[zc] = np.array(pts)
+        PC = _EPC[zc]
+        gts = [G.mk3d(_box_spec(b[:2], b[2], b[3], z=zc, vis=None, uuid="g%d" % i)) for i, b in enumerate(boxes)]
+        cfg = SensingFrameConfig(None, case["s0"], case["s100"], case["minp"])
+        fr = SensingFrameResult(cfg, 100, "0")
+        zr = (zc - 3.0, zc + 3.0)
+        polys = [[(-12, -12), (14, -12), (14, 14), (-12, 14)]]
+        nd = [crop_pointcloud(PC, [(x, y, zr[0]) for x, y in polys[0]] + [(x, y, zr[1]) for x, y in polys[0]])]
+        acc.exec()
+        fr.evaluate_frame(gts, PC, nd)
+        acc.compared()
+        out = _check_frame_result(case, fr, gts, boxes, zc, case["s0"], case["s100"], case["minp"], PC, polys, zr, acc, bad)
+        acc.state(("elevated", zc, case["s0"], case["s100"], case["minp"], tuple(out)), nontrivial=True)
+        acc.outcome(tuple(sorted(out)))
     elif lay == "frame":
         PC = _frame_cloud()
         sel, viss = case["sel"], case["vis"]
